@@ -457,7 +457,9 @@ def run(ctx):
     tcfg = ctx.pick("MC_CellGeom_tissue.cfg", "MC_CellGeom_tissue_thorough.cfg")
     tjobs, pl = [], {}
     for b in bases:
-        res = ctx.mc("MC_CellGeom", tcfg, env={"BASE_FILE": _base_file(b)}, timeout=3600, heap="1g")
+        # the 15-cell tissue has 32767 sub-tissues: straight edges only (k = 0)
+        bcfg = "MC_CellGeom_tissue_k0.cfg" if b == "irregular" else tcfg
+        res = ctx.mc("MC_CellGeom", bcfg, env={"BASE_FILE": _base_file(b)}, timeout=3600, heap="1g")
         for inst in res.printed:
             case += 1
             tjobs.append((case, b, inst, ctx.seed))
@@ -511,7 +513,7 @@ def run(ctx):
                 "polygons with at least one reflex or straight vertex (strictly convex ones are run but not counted), "
                 "catalogue sub-tissues with at least two cells, random tissues.")
     ctx.exhaustive = True
-    ctx.extra["exhaustive_scope"] = {"polygon_cfgs": cfgs, "grid_polygons": n_grid, "tissue_cfg": tcfg,
+    ctx.extra["exhaustive_scope"] = {"polygon_cfgs": cfgs, "grid_polygons": n_grid, "tissue_cfg": tcfg, "tissue_cfg_irregular": "MC_CellGeom_tissue_k0.cfg",
                                      "bases": bases, "catalogue_instances": n_cat,
                                      "random_polygons": nrand, "random_tissues": nvor}
     ctx.assumptions += ["TLC/SANY and the CommunityModules Json reader are trusted",
